@@ -23,13 +23,34 @@ func c02Register(id string, maxQuick, maxThorough int) {
 				max = maxThorough
 			}
 			for i := 0; i < n; i++ {
-				emit(abfth.Gen(r, abfth.GenOpts{Mix: id, Tier: tier, MaxEv: max})...)
+				// the generator builds the DAG with the real code: guard it by a deadline too
+				done := make(chan []string, 1)
+				go func() {
+					defer func() {
+						if rec := recover(); rec != nil {
+							done <- []string{id, "200", "50", "5", "1", ";", "V", "1", "1", ";", "GENPANIC", strings.ReplaceAll(fmt.Sprint(rec), " ", "_")}
+						}
+					}()
+					done <- abfth.Gen(r, abfth.GenOpts{Mix: id, Tier: tier, MaxEv: max})
+				}()
+				select {
+				case toks := <-done:
+					emit(toks...)
+				case <-time.After(30 * time.Second):
+					emit(id, "200", "50", "5", "1", ";", "V", "1", "1", ";", "GENTIMEOUT")
+					return
+				}
 			}
 		},
 		Run: func(in []string) []string {
 			sc := abfth.Parse(in)
 			// a per-case deadline: a code change that makes the traversal blow up must end as a
 			// reported observation, not as a hanging check
+			for _, t := range in {
+				if t == "GENTIMEOUT" || t == "GENPANIC" {
+					return []string{"TIMEOUT-in-generator"}
+				}
+			}
 			if c02Timeouts >= 3 {
 				return []string{"TIMEOUT-skipped"}
 			}
